@@ -24,7 +24,8 @@ Inductive op :=
 | OCompact (w : which) (ord : list N)   (* one Compaction() call; ord = Go map order reconstructed from the run *)
 | OCompactAll (w : which) (ords : list (list N))   (* Compaction() until it reports done *)
 | OScanAll (w : which) (count : nat) (pat : N)   (* pat: 0 = no pattern, b>0 = keys starting with byte b-1 *)
-| OXfer.                            (* Export first live table of A, Import into B with f = Put, Drop *)
+| OXfer (ord : list N).             (* Export first live table of A, Import into B with f = Put (visiting the
+                                       hkeys in the Go-map order ord reconstructed from the run), Drop *)
 
 Inductive code := CNil | CKeyTooLarge | CEntryTooLarge | CNotFound | CSpin.
 
@@ -124,10 +125,13 @@ Definition step (c : cfg) (x : st) (o : op) : st * obs :=
   | OScanAll w count pat =>
       (x, BKeys (option_map (fun rs => sort_keys (map (fun r => ekey (re r)) rs))
                             (s_scan_all (matcher pat) count 400 0 (getw w x))))
-  | OXfer =>
+  | OXfer ord =>
       match s_export (sa x) with
       | None => (x, BXfer false)
-      | Some (i, t) => ({| sa := s_drop i (sa x); sb := import_all (trecs t) (sb x) |}, BXfer true)
+      | Some (i, t) =>
+        let first := flat_map (fun h => match t_find h t with Some r => [r] | None => [] end) ord in
+        let rest := filter (fun r => negb (existsb (N.eqb (rh r)) ord)) (trecs t) in
+        ({| sa := s_drop i (sa x); sb := import_all (first ++ rest) (sb x) |}, BXfer true)
       end
   end.
 
